@@ -129,7 +129,10 @@ type Hist struct {
 	// AckDepthMax > 0: blocks sometimes acknowledge a momentum up to this many heights behind
 	AckDepthMax int
 	// Focus: contracts that ActCallABI addresses half of the time (e.g. the ones a script has just configured)
-	Focus       []types.Address
+	Focus []types.Address
+	// Recode > 0: one call in Recode to an embedded contract (whoever built it: intents, scripts, the ABI layer) is
+	// re-encoded non-canonically just before it is sent (same selector, same meaning where it still decodes)
+	Recode      int
 	AckBehind   int
 	AckBehindOK int
 
@@ -176,7 +179,7 @@ func NewHist(c *pbt.C, spec *Spec, o WorldOpts) *Hist {
 // NewHistOn drives another producing node of an existing world (competing branches).
 func NewHistOn(c *pbt.C, w *World, a *Node, like *Hist) *Hist {
 	a.PreflightOn = true
-	h := &Hist{C: c, W: w, A: a, MethodsOK: map[string]int{}, Users: like.Users, Intents: like.Intents, AckDepthMax: like.AckDepthMax, Focus: like.Focus}
+	h := &Hist{C: c, W: w, A: a, MethodsOK: map[string]int{}, Users: like.Users, Intents: like.Intents, AckDepthMax: like.AckDepthMax, Focus: like.Focus, Recode: like.Recode}
 	h.Sends = append(h.Sends, like.Sends...)
 	h.Htlcs = append(h.Htlcs, like.Htlcs...)
 	h.Projects = append(h.Projects, like.Projects...)
@@ -284,6 +287,10 @@ func (h *Hist) Submit(tpl *nom.AccountBlock, descr string) (*nom.AccountBlock, e
 				h.AckBehind++
 			}
 		}
+	}
+	if h.Recode > 0 && types.IsEmbeddedAddress(tpl.ToAddress) && len(tpl.Data) >= 4 && h.C.Weighted("recode", h.Recode-1, 1) == 1 {
+		tpl.Data = MutatePacking(h.C, tpl.Data)
+		descr += " [call data re-encoded]"
 	}
 	b, err := h.A.Send(tpl)
 	if err != nil {
